@@ -1,5 +1,8 @@
 //! One module per property.
 
+pub mod c02;
+pub mod c03;
+pub mod c05;
 pub mod c16;
 pub mod c17;
 pub mod c18;
@@ -8,6 +11,10 @@ use crate::{Args, Report};
 
 pub fn run(args: &Args) -> Report {
     match args.prop.as_str() {
+        "C02" => c02::run(args),
+        "C03" => c03::run(args),
+        "C05" => c05::run(args),
+        "C06" => c05::run_c06(args),
         "C16" => c16::run(args),
         "C17" => c17::run(args),
         "C18" => c18::run(args),
